@@ -96,7 +96,7 @@ def pop3d_jobs(ck, thorough):
             if ln == 4 and files is pops[1]:
                 continue
             if ln == 4:
-                core = [c for c in core if c[0] not in (b"LAST", b"STAT", b"UIDL") and c != (b"DELE", b"0")]
+                core = [c for c in core if c[0] != b"LAST" and c != (b"DELE", b"0")]
             for seq in itertools.product(core, repeat=ln):
                 if any(c[0] == b"QUIT" for c in seq[:-1]):
                     continue
@@ -105,7 +105,7 @@ def pop3d_jobs(ck, thorough):
                 # dropped connection, after a listing that shows the marks
                 add(files, seq + ([(b"LIST", b"")] if seq[-1][0] not in (b"QUIT", b"LIST") else []), tag="enum")
     # (c) seeded random sessions: random populations, longer sequences, vanishing files, mixed case
-    nrand = 12000 if thorough else 1500
+    nrand = 20000 if thorough else 1500
     names = [b"1700000%03d.%d.mx.test" % (i, 500 + i) for i in range(12)]
     for r in range(nrand):
         n = rng.choice([0, 1, 2, 2, 3, 3, 4, 5, 6])
@@ -252,13 +252,6 @@ def main():
             ("Pop3d", "Pop3d", "Pop3d.cfg", {"workers": 8}),
             ("Pop3Popup", "Pop3Popup", "Pop3Popup.cfg", {"workers": 2}),
             ("Pop3d(word wraps at 100)", "Pop3d", cfgw, {"workers": 2})]
-    threads = []
-    if not a.replay:
-        for name, module, cfg, kw in plan:
-            t = threading.Thread(target=run_model, args=(name, module, cfg), kwargs=kw)
-            t.start()
-            threads.append(t)
-
     # ---- real code
     tree = build_tree(ck.scratch, queue=False, targets=("qmail-pop3d", "qmail-popup"))
     pop3d, popup = tree.bin("qmail-pop3d"), tree.bin("qmail-popup")
@@ -273,7 +266,8 @@ def main():
         djobs, pjobs = ([job], []) if kind == "d" else ([], [job])
     else:
         djobs, pjobs = pop3d_jobs(ck, thorough), popup_jobs(ck, thorough)
-    breaker = U.Breaker()
+    # every worker process gives up after two sessions that hang (a broken server must not cost 5 s x thousands)
+    breaker = U.Breaker(limit=2)
     alljobs = [("d", i, j) for i, j in enumerate(djobs)] + [("p", len(djobs) + i, j) for i, j in enumerate(pjobs)]
 
     def one_with(item, brk, timeout):
@@ -285,8 +279,21 @@ def main():
     def one(item):
         return one_with(item, breaker, 5.0)
 
+    # worker processes are forked before any thread exists; then the models run in threads beside the sessions
+    pool = U.ForkPool(one, NCPU)
+    threads = []
+    if not a.replay:
+        for name, module, cfg, kw in plan:
+            t = threading.Thread(target=run_model, args=(name, module, cfg), kwargs=kw)
+            t.start()
+            threads.append(t)
     t1 = time.time()
-    results = sessions.pmap(one, alljobs)
+    try:
+        results = pool.map(alljobs)
+    except BaseException:
+        pool.abort()
+        raise
+    pool.close()
     log("C19: %d sessions in %.1fs" % (len(alljobs), time.time() - t1))
     done = [(it, r) for it, r in zip(alljobs, results) if r is not None]
     # a session that timed out may be the machine, not the server: run such sessions again with a long timeout
@@ -301,11 +308,12 @@ def main():
             done[k] = (done[k][0], r)
     if not done:
         raise Infra("no session could be run")
-    if breaker.open:
-        log("C19: %d sessions hung; %d of %d sessions were run before giving up" % (breaker.n, len(done), len(alljobs)))
+    nhung = sum(1 for _, r in done if r.get("hung"))
+    if len(done) < len(alljobs):
+        log("C19: %d sessions hung; %d of %d sessions were run before giving up" % (nhung, len(done), len(alljobs)))
     # sanity of the harness itself: the first designed sessions must have been served
     served = sum(1 for (it, r) in done if r["k"] == "d" and r["root"] == 0 and r["greet"] == "ok")
-    if served == 0 and not breaker.open and any(it[0] == "d" and not it[2]["root"] for it, _ in done):
+    if served == 0 and len(done) == len(alljobs) and any(it[0] == "d" and not it[2]["root"] for it, _ in done):
         # every session failed before the greeting: more likely the sandbox (uid switch, permissions) than the server;
         # a server that never greets is still reported by TLC below (NoGreeting)
         log("C19: no session got a greeting")
@@ -361,7 +369,8 @@ def main():
             ntags["popup"] = ntags.get("popup", 0) + 1
         ck.count(key, nontrivial=nontriv)
     ck.cov["sessions_by_kind"] = ntags
-    ck.cov["sessions_hung"] = breaker.n
+    ck.cov["sessions_hung"] = nhung
+    ck.cov["sessions_not_run_after_hangs"] = len(alljobs) - len(done)
     picks, want = [], ["single", "enum", "random", "root", "popup", "popup"]
     for (kind, idx, job), r in done:
         tag = job.get("tag", "popup") if kind == "d" else "popup"
@@ -382,12 +391,12 @@ def main():
                        "descriptor3": [bytes(i[0]).decode("latin-1")[:80] if i else "" for i in r["invs"]]})
     ck.cov["rule"] = ("real qmail-pop3d sessions driven command by command: every verb x %d argument texts (none, 0, 1, n, n+1, huge, junk, "
                       "digit-prefixed junk, pairs, >= 2^64) on 5 designed maildirs with probe commands; every sequence up to length %d over a "
-                      "15-command core set on %d maildirs, ended by QUIT and by a dropped connection; %d seeded random sessions (0-6 messages in "
+                      "%d-command core set on %d maildirs, ended by QUIT and by a dropped connection; %d seeded random sessions (0-6 messages in "
                       "new/ and cur/, binary and >1024-byte messages, files removed between commands, mixed-case verbs); as root; real qmail-popup "
                       "with a recording stand-in checker: every sequence up to length %d over 23 commands x checker exit 0 / 1 / crash, user x "
                       "password table, random sessions.  distinct = distinct (maildir, command sequence); non-trivial = contains DELE / RETR / TOP / "
                       "a vanishing file, or (popup) reaches the checker or sends a verb that must be refused"
-                      % (len(U.arg_table(2)) + len(U.wrap_table(2)), 4 if thorough else 3, 3 if thorough else 2,
+                      % (len(U.arg_table(2)) + len(U.wrap_table(2)), 4 if thorough else 3, 15, 3 if thorough else 2,
                          ntags.get("random", 0), 3 if thorough else 2))
     ck.cov["exhaustive"] = True
     ck.assumptions += [
